@@ -11,7 +11,7 @@ import (
 )
 
 var c03Forced = []string{"group.1col", "group.2col", "group.3col", "group.nullkey", "group.mixedkey", "having", "having.key", "where", "star", "agg.COUNT*", "agg.COUNT", "agg.SUM", "agg.MIN", "agg.MAX", "agg.AVG",
-	"agg.samefn-diffcol", "agg.samefn-samecol", "agg.nullable", "whole.where", "whole.nowhere", "whole.empty", "whole.union", "whole.limit", "table.empty"}
+	"agg.samefn-diffcol", "agg.samefn-samecol", "agg.nullable", "whole.where", "whole.nowhere", "whole.empty", "whole.union", "whole.limit", "table.empty", "from.alias"}
 
 func init() {
 	fw.Register(&fw.Prop{
@@ -118,6 +118,14 @@ func c03Group(c *fw.Case) {
 	t := c03Table(c, force == "table.empty")
 	whole := strings.HasPrefix(force, "whole.") || (force == "" && c.Chance(0.25)) || (force == "table.empty" && c.Chance(0.5))
 	var feats []string
+	// an aliased table with every column named by its qualified source name
+	aliasMode := force == "from.alias" || (force == "" && c.Chance(0.2))
+	qualify := func(aggSQL string) string {
+		if !aliasMode || strings.HasSuffix(aggSQL, "(*)") {
+			return aggSQL
+		}
+		return strings.Replace(aggSQL, "(", "(x.", 1)
+	}
 	pg := &gen.PredGen{R: c.R, T: t, MaxDepth: 2, Disable: map[string]bool{"in.subquery": true, "like": true, "notlike": true}}
 	var where gen.Pred
 	switch {
@@ -187,7 +195,7 @@ func c03Group(c *fw.Case) {
 				items = append(items, c03Item{key: g, col: g})
 			}
 		}
-		if force == "star" || c.Chance(0.25) {
+		if !aliasMode && (force == "star" || c.Chance(0.25)) {
 			items = append(items, c03Item{key: "*", star: true})
 			feats = append(feats, "star")
 		}
@@ -221,7 +229,7 @@ func c03Group(c *fw.Case) {
 	if !whole && (force == "having" || force == "having.key" || c.Chance(0.35)) {
 		atom := func() gen.Pred {
 			ops := []string{"=", "!=", "<", "<=", ">", ">="}
-			useKey := force == "having.key" || c.Chance(0.25)
+			useKey := !aliasMode && (force == "having.key" || c.Chance(0.25))
 			if useKey {
 				for _, g := range gcols {
 					if g == "g4" || g == "g5" {
@@ -240,7 +248,7 @@ func c03Group(c *fw.Case) {
 			}
 			a := gen.Pick(c.R, havingAggs)
 			name := "@" + a.SQL()
-			colText[name] = a.SQL()
+			colText[name] = qualify(a.SQL())
 			var lit float64
 			if a.Fn == "COUNT" {
 				lit = float64(c.Intn(4))
@@ -260,18 +268,23 @@ func c03Group(c *fw.Case) {
 	}
 	// SQL
 	ro := gen.RenderOpts{Quote: gen.Quoting(c.Intn(2)), StrStyle: c.Intn(2)}
+	from := "t1"
+	if aliasMode {
+		ro.Qualifier, from = "x", "t1 x"
+		feats = append(feats, "from.alias")
+	}
 	parts := make([]string, len(items))
 	for i, it := range items {
 		switch {
 		case it.star:
 			parts[i] = "*"
 		case it.agg != nil:
-			parts[i] = it.agg.SQL() + " AS " + it.key
+			parts[i] = qualify(it.agg.SQL()) + " AS " + it.key
 		default:
 			parts[i] = ro.Col(it.col)
 		}
 	}
-	sql := "SELECT " + strings.Join(parts, ", ") + " FROM t1"
+	sql := "SELECT " + strings.Join(parts, ", ") + " FROM " + from
 	if where != nil {
 		sql += " WHERE " + gen.RenderPred(where, ro)
 		feats = append(feats, "where")
@@ -376,7 +389,7 @@ func c03Group(c *fw.Case) {
 			}
 			want = append(want, row2)
 			sel := sql[:strings.Index(sql, " FROM t1")]
-			sql = sql + " UNION ALL " + sel + " FROM t1 WHERE " + gen.RenderPred(p2, ro)
+			sql = sql + " UNION ALL " + sel + " FROM " + from + " WHERE " + gen.RenderPred(p2, ro)
 			feats = append(feats, "whole.union")
 			nontrivial = len(filtered2) != len(filtered)
 		}
